@@ -383,6 +383,53 @@ def fam_combinators(g, prefix, n_random):
         for evs in scripts_grid(g, 1):
             g.tag = 0
             out.append(case("%s-%d" % (prefix, i), [["sub", ["flat_map", fm, g.cold(evs)], NOREACT]])); i += 1
+    # inner subscriptions created AFTER an earlier inner one completed while another is still live
+    # (the controller must keep its upstream observers apart: serials are never reused)
+    import itertools
+    idx = {"a": "0", "b": "1", "c": "2"}
+    for (x, y, z) in itertools.permutations(["a", "b", "c"]):
+        pre = [["subject", nm, "plain"] for nm in ("a", "b", "c")] + [["subject", "s", "plain"]]
+        opening = [["hnext", "s", idx[x]], ["hnext", "s", idx[y]], ["hnext", x, "1"], ["hcomplete", x], ["hnext", "s", idx[z]]]
+        tails = [
+            [["hcomplete", "s"], ["hnext", y, "2"], ["hcomplete", y], ["hnext", z, "3"], ["hcomplete", z]],
+            [["hnext", y, "1"], ["hnext", z, "2"], ["unsub", "0"], ["hnext", y, "3"], ["hnext", z, "3"]],
+            [["hnext", z, "2"], ["herror", y, "6"], ["hnext", z, "3"]],
+            [["hcomplete", "s"], ["hcomplete", z], ["hnext", y, "2"], ["hcomplete", y]],
+        ]
+        for tl in tails:
+            for wrap in (lambda p: p, lambda p: ["take", "3", p]):
+                g.tag = 0
+                p = wrap(["flat_map", ["fm_ref", "a", "b", "c"], ["ref", "s"]])
+                out.append(case("%s-%d" % (prefix, i), pre + [["sub", p, NOREACT]] + opening + tl)); i += 1
+    for rep in range(max(12, n_random // 3)):
+        # three / four hot inner sources: inner subscriptions created AFTER earlier inner ones completed
+        g.tag = 0
+        inner = ["a", "b", "c", "d"][: g.r.choice([3, 3, 4])]
+        steps = [["subject", nm, "plain"] for nm in inner] + [["subject", "s", "plain"]]
+        p = ["flat_map", ["fm_ref"] + inner, ["ref", "s"]]
+        if g.r.random() < 0.3:
+            p = ["take", str(g.r.choice([2, 3, 5])), p]
+        steps.append(["sub", p, NOREACT])
+        order = list(range(len(inner)))
+        g.r.shuffle(order)
+        opened = []
+        for _ in range(g.r.randint(6, 14)):
+            k = g.r.random()
+            if k < 0.3 and order:
+                i = order.pop()
+                steps.append(["hnext", "s", str(i)]); opened.append(inner[i])
+            elif k < 0.5 and opened:
+                nm = g.r.choice(opened)
+                steps.append(g.r.choice([["hcomplete", nm], ["hcomplete", nm], ["herror", nm, "6"]]))
+            elif k < 0.58:
+                steps.append(["hcomplete", "s"])
+            elif opened:
+                steps.append(["hnext", g.r.choice(opened), g.val()])
+        if g.r.random() < 0.5:
+            steps.append(["unsub", "0"])
+        for nm in inner:
+            steps.append(["hnext", nm, "3"])
+        out.append(case("%s-%d" % (prefix, i), steps)); i += 1
     for rep in range(max(3, n_random // 10)):
         g.tag = 0
         steps = [["subject", "a", "plain"], ["subject", "b", "plain"], ["subject", "s", "plain"]]
@@ -559,6 +606,15 @@ def fam_teardown(g, prefix, n_random):
         # hot source: the subject must not hold the observer afterwards
         steps = [["subject", "a", "plain"], ["sub", mk(["ref", "a"]), NOREACT]] + [["hnext", "a", str(v)] for v in (1, 2, 3, 0, 1)]
         add(steps)
+    # the downstream ends while an operator is still handing over its own prefix: the source behind it must not stay subscribed
+    for ender in (lambda q: ["take", "1", q], lambda q: ["take_while", "ff", q], lambda q: ["take", "2", q]):
+        for pre in (lambda q: ["start_with", ["l", "7", "8"], q], lambda q: ["merge", ["from_iter", "7", "8"], q],
+                    lambda q: ["concat", ["from_iter", "7", "8"], q], lambda q: ["amb", ["just", "7"], q]):
+            for inner in (lambda q: q, lambda q: ["map", "inc", q], lambda q: ["filter", "tt", q], lambda q: ["scan", "add", q]):
+                g.tag = 0
+                add([["subject", "a", "plain"], ["sub", ender(pre(inner(["ref", "a"]))), NOREACT], ["hnext", "a", "1"]])
+                g.tag = 0
+                add([["sub", ender(pre(inner(g.cold(long)))), NOREACT]])
     # unsubscribe / terminal as the cause, at each position
     for j in range(n_random):
         g.tag = 0
@@ -649,6 +705,17 @@ def fam_release(g, prefix, n_random):
         add(pre + [["hcomplete", "a"], ["hcomplete", "b"]])
         add(pre + [["herror", "b", "6"]])
         add([["sub", g.combine_named(c, g.cold([n_(1), n_(2), C_]), [g.cold([n_(3), C_])]), NOREACT]])
+    # the downstream ends before / while an operator hands over its own prefix, the source stays silent afterwards
+    for name in sorted(ops) + ["none"]:
+        mk = ops[name] if name != "none" else (lambda p: p)
+        for ender in (lambda q: ["take", "1", q], lambda q: ["take_while", "ff", q], lambda q: ["first", q], lambda q: ["take", "2", q]):
+            for pre in (lambda q: ["start_with", ["l", "7", "8"], q], lambda q: ["merge", ["from_iter", "7", "8"], q],
+                        lambda q: ["concat", ["from_iter", "7", "8"], q], lambda q: ["amb", ["just", "7"], q]):
+                if g.r.random() < 0.35:
+                    g.tag = 0
+                    add([["subject", "a", "plain"], ["sub", ender(pre(mk(["ref", "a"]))), NOREACT]])
+                    g.tag = 0
+                    add([["sub", ender(pre(mk(g.cold([])))), NOREACT]])
     for j in range(n_random):
         g.tag = 0
         p = g.pipe_typed(g.r.randint(1, 3), hot=("a",))
